@@ -1336,7 +1336,7 @@ def run(ctx):
     from midgard.data.time import Time
     scales = list(Time.SCALES)
     rng = ctx.rng
-    n_scen = 150 if ctx.quick() else 2000
+    n_scen = 150 if ctx.quick() else 1500
     specs = [json.loads(json.dumps(c)) for c in CORPUS]
     for _ in range(n_scen):
         specs.append(gen_scenario(rng, scales))
